@@ -90,8 +90,17 @@ def direct(ctx, c):
         return d
 
     def run(fn):
-        with quiet():
-            return fn()
+        try:
+            with quiet():
+                return fn()
+        except AssertionError:
+            raise
+        except Exception as e:     # noqa: BLE001 - a crash on generated-valid constants means the series is not produced
+            import traceback
+            fr = [f for f in traceback.extract_tb(e.__traceback__) if "/src/" in f.filename]
+            where = "%s:%s" % (fr[-1].filename.split("/src/")[-1], fr[-1].name) if fr else "?"
+            ctx.fail("supply-code-raises-on-valid-constants:%s@%s" % (type(e).__name__, where), "%s: %s" % (type(e).__name__, str(e)[:120]), c)
+            raise
     # fish
     def fish(b):
         p = cp(ADD_FISH=True, FISH_DRY_CALORIC_ANNUAL=b, FISH_PROTEIN_TONS_ANNUAL=b * 0.1, FISH_FAT_TONS_ANNUAL=b * 0.05)
